@@ -83,6 +83,9 @@ var failTemplates = []failTpl{
 	{"regonly-loopvar-modified", "lang-error", func(_ *core.Rng, _ []string) string { return `for i = 3 { i++ }` }},
 	{"regonly-function-literal-in-loop", "lang-error", func(_ *core.Rng, _ []string) string { return `for i = 3 { (x => x + 1)(i) }` }},
 	{"regonly-loopvar-postfix-nested", "lang-error", func(_ *core.Rng, _ []string) string { return `for i = 2 { for j = 2 { j-- } }` }},
+	{"regonly-toplevel-loop-panic-in-callee", "panic:runtime", func(r *core.Rng, _ []string) string {
+		return fmt.Sprintf(`for i = %d { div9(6, 2 - i) }`, 3+r.Intn(3))
+	}},
 	{"depth-self", "panic:guard-depth", func(_ *core.Rng, _ []string) string { return `(x => self(x + 1))(0)` }},
 	{"depth-self-in-loop", "panic:guard-depth", func(_ *core.Rng, _ []string) string {
 		return `(() => { rr := x => self(x + 1); for i = 3 { rr(i) } })()`
@@ -162,6 +165,7 @@ func (c10) Generate(r *core.Rng, run int, tier string) *core.History {
 	cfg := sessCfgOf(h)
 	g := gen.New(gr, flags)
 	bg := newBaseGen(g, cfg)
+	bg.AddFixed([]string{"func div9(a9, b9) { a9 / b9 }"}) // helper of the failing templates (part of H and H')
 	nBase := 3 + kr.Intn(8)
 	for i := 0; i < nBase; i++ {
 		bg.Add(1 + kr.Intn(4))
